@@ -114,8 +114,9 @@ class PartialCorrelationClimateNetwork(TsonisClimateNetwork):
         #  calculation of inverse matrix.
         C = np.corrcoef(anomaly.transpose()).astype("float64")
 
-        #  Calculate the inverse correlation matrix
-        if np.linalg.det(C) != 0.0:
+        #  Calculate the inverse correlation matrix (a determinant that is
+        #  merely tiny does not make the matrix invertible: test the rank)
+        if np.linalg.matrix_rank(C) == C.shape[0]:
             C_inv = np.linalg.inv(C)
         else:
             C_inv = np.linalg.pinv(C)
